@@ -521,6 +521,32 @@ def cert(case, ctx):
             r = X.verify_by_ca_cert(l, "x509_cert_verify_by_ca_cert", der, ca, i2)
             ctx.check(r != 1, "x509_cert_verify_by_ca_cert accepts the signer ID %s for a certificate issued with %s" % (X.id_text(i2), X.id_text(sid)), "cert/verify-by-ca/other-id-accepted")
         vs.append(("x509_cert_verify_by_ca_cert", lambda m: X.verify_by_ca_cert(l, "x509_cert_verify_by_ca_cert", m, ca, sid)))
+        # the relying party's way to the issuer: the CA file is searched for the certificate whose SUBJECT is the wanted name
+        # (x509_cert_from_pem_by_subject, as gmssl certverify does); files in both orders, lookups of both names
+        import os
+        from vlib import build as B
+        from vlib.ffi import helper
+        from vlib.ref import x509 as XR
+        dll = helper()[0]
+        subj = lambda cert: X.parse_cert(cert)[1]["subject"]
+        for order in ((der, ca), (ca, der)):
+            path = os.path.join(B.BUILD, "tmp", "c15_%d_ca.pem" % os.getpid())
+            os.makedirs(os.path.dirname(path), exist_ok=True)
+            open(path, "wb").write(b"".join(XR.pem("CERTIFICATE", x) for x in order))
+            for want in (c["issuer"], c["subject"]):
+                exp = next((x for x in order if subj(x) == want), None)
+                fp = dll.vh_fopen(path.encode(), b"r")
+                out = Buf(4096, fill=0xA5); ol = ctypes.c_size_t(0)
+                nb = Buf.of(want)
+                r = l.x509_cert_from_pem_by_subject(out, ctypes.byref(ol), 4096, nb, len(want), fp)
+                dll.vh_fclose(fp)
+                which = "issuer-name" if want == c["issuer"] else "subject-name"
+                pos = "first" if exp is order[0] else "second"
+                if exp is None:
+                    ctx.check(r != 1, "x509_cert_from_pem_by_subject finds a certificate for a name that is no certificate's subject", "cert/by-subject/absent-found")
+                else:
+                    ctx.check(r == 1 and out.raw(ol.value) == exp, "x509_cert_from_pem_by_subject for the %s (the %s certificate of the file has this subject): ret=%d, %s" %
+                              (which, pos, r, "another certificate returned" if r == 1 else "nothing returned"), "cert/by-subject/%s-%s" % (which, pos))
     if case["self"]:
         # a self-signed certificate is verified against itself (gmssl certverify -in root.pem -cacert root.pem): the signature still has to
         # be the issuer's over exactly these bytes and this signer ID - also when both arguments are the same modified bytes
